@@ -169,7 +169,7 @@ def check_case(ctx, case, drv, expect_reject=False):
     return "ok" if exact_points and entries else "trivial"
 
 
-KNOWN_STREAMS = ("ifstmt", "emptyloop")
+KNOWN_STREAMS = ("ifstmt",)
 
 
 def _is_json_point(p):
@@ -386,6 +386,7 @@ def ifstmt_cases(rng, n):
 
 
 def emptyloop_cases(rng, n):
+    """For-equations over an empty range whose body has a computed subscript (crashed before 8f76abc)."""
     out = []
     for k in range(n):
         form = rng.choice(["i+1", "i-1", "2*i", "5-i"])
